@@ -390,6 +390,9 @@ pub struct AnnealCase {
     /// drive the annealer with the scripted RNG instead of SmallRng: (period, pattern, reps)
     #[serde(default)]
     pub script: Option<(u16, Vec<u64>, u16)>,
+    /// 0 new(), 1 new_with_decomp(), 2 new() + set_init_decomp()
+    #[serde(default)]
+    pub entry: u8,
 }
 
 fn check_anneal(c: &AnnealCase, obs: &mut Obs) -> Result<(), String> {
@@ -406,7 +409,35 @@ fn check_anneal(c: &AnnealCase, obs: &mut Obs) -> Result<(), String> {
 
 fn check_anneal_with<R: rand::Rng>(c: &AnnealCase, rng: R, obs: &mut Obs) -> Result<(), String> {
     let (g, _) = build_graph::<quizx::vec_graph::Graph>(&c.graph);
-    let mut a = guarded("RankwidthAnnealer::new", || RankwidthAnnealer::new(g.clone(), rng))?;
+    // three public ways to fix the starting tree: drawn by new(), passed to new_with_decomp(),
+    // or replaced afterwards by set_init_decomp(); the supplied tree may carry a warm rank cache
+    let supplied = |warm: bool| -> Result<DecompTree, String> {
+        let mut r0 = ScriptRng::new(vec![c.seed ^ 0x5151]);
+        let mut t0 = guarded("random_decomp", || DecompTree::random_decomp(&g, &mut r0))?;
+        if warm {
+            let _ = t0.rankwidth(&g);
+            t0.random_local_swap(&mut r0);
+        }
+        Ok(t0)
+    };
+    let mut a = match c.entry % 3 {
+        1 => {
+            obs.class("entry:new_with_decomp");
+            let t0 = supplied(c.seed % 2 == 0)?;
+            guarded("RankwidthAnnealer::new_with_decomp", || RankwidthAnnealer::new_with_decomp(g.clone(), t0, rng))?
+        }
+        2 => {
+            obs.class("entry:set_init_decomp");
+            let t0 = supplied(c.seed % 2 == 1)?;
+            let mut a = guarded("RankwidthAnnealer::new", || RankwidthAnnealer::new(g.clone(), rng))?;
+            a.set_init_decomp(t0.clone());
+            if a.init_decomp().nodes != t0.nodes {
+                return Err("set_init_decomp did not install the given tree".into());
+            }
+            a
+        }
+        _ => guarded("RankwidthAnnealer::new", || RankwidthAnnealer::new(g.clone(), rng))?,
+    };
     a.set_iterations(c.iterations)
         .set_init_temp(c.init_temp)
         .set_min_temp(c.min_temp)
@@ -490,7 +521,7 @@ pub fn def(ctx: &Ctx) -> PropertyDef {
     let max_moves = t.pick(30, 200);
     PropertyDef {
         id: "C18",
-        rule: "graphs with 2..14 (24) vertices (random, edgeless, complete; vector and hash backend with gaps in the names); random_decomp and the three moves (leaf swap, local swap, subtree move) driven by a scripted RNG over a generated word stream, including streams that repeat a short pattern up to 400 times before a move (long finite runs of rejected draws); histories of <=30 (200) moves. After every move: structural cubic-tree invariant (leaves <-> vertices bijectively, symmetric adjacency, no self/multi adjacency, connected, acyclic, index lists consistent), is_valid_for_graph, no panic; rankwidth()/rankwidth_score() on the live tree == the same on a clone with the cache cleared == brute-force cut ranks from the harness's own partition and F2 rank. Annealer with generated parameters and a seeded SmallRng or the scripted RNG with periodic stalls: result valid, brute-force width <= that of the initial tree and equal to the width it reports. Non-trivial = >=3 moves of >=2 kinds on a tree with >=6 nodes with two moves touching a common tree edge; annealer on >=5 vertices with >=20 iterations.",
+        rule: "graphs with 2..14 (24) vertices (random, edgeless, complete; vector and hash backend with gaps in the names); random_decomp and the three moves (leaf swap, local swap, subtree move) driven by a scripted RNG over a generated word stream, including streams that repeat a short pattern up to 400 times before a move (long finite runs of rejected draws); histories of <=30 (200) moves. After every move: structural cubic-tree invariant (leaves <-> vertices bijectively, symmetric adjacency, no self/multi adjacency, connected, acyclic, index lists consistent), is_valid_for_graph, no panic; rankwidth()/rankwidth_score() on the live tree == the same on a clone with the cache cleared == brute-force cut ranks from the harness's own partition and F2 rank. Annealer with generated parameters, a seeded SmallRng or the scripted RNG with periodic stalls, and its starting tree fixed through new(), new_with_decomp() or set_init_decomp() (supplied trees with a cold or warm rank cache): result valid, brute-force width <= that of the initial tree and equal to the width it reports. Non-trivial = >=3 moves of >=2 kinds on a tree with >=6 nodes with two moves touching a common tree edge; annealer on >=5 vertices with >=20 iterations.",
         assumptions: vec!["harness partition / F2 rank; scripted RNG implements rand::RngCore"],
         sections: vec![
             Section::random(
@@ -533,9 +564,10 @@ pub fn def(ctx: &Ctx) -> PropertyDef {
                             2 => Just(None),
                             1 => (8u16..200, prop::collection::vec(any::<u64>(), 1..=4), prop_oneof![1u16..20, 45u16..120]).prop_map(Some),
                         ],
+                        0u8..3,
                     )
                         .prop_map(
-                            |(graph, seed, iterations, init_temp, min_temp, cooling, adaptive, script)| AnnealCase {
+                            |(graph, seed, iterations, init_temp, min_temp, cooling, adaptive, script, entry)| AnnealCase {
                                 graph,
                                 seed,
                                 iterations,
@@ -544,6 +576,7 @@ pub fn def(ctx: &Ctx) -> PropertyDef {
                                 cooling,
                                 adaptive,
                                 script,
+                                entry,
                             },
                         )
                 },
